@@ -231,13 +231,23 @@ def rule_tags(rep: Report, rid="C19.tags") -> None:
                 it = I.loops[lid].get("iter")
                 el = ("elem", lid)
                 d = nf.resolve_ref_dict(I, segs[0][2][0][1], m.tree)
-                okp = it is not None and it[0] == "call" and it[1] == "re.finditer" and is_const(it[2][0]) and regexnf.same(it[2][0][1], 0, "`(@[^`]+)`") and it[2][1] == trimmed \
-                    and not I.loops[lid].get("conds")
-                start_forms = [("call", ".start", (el, const(0)), ()), ("call", ".start", (el,), ())]
-                okd = d is not None and set(d) == {"column", "text"} and d["text"][0] == ("call", ".group", (el, const(1)), ()) and any(
-                    lin_eq(d["column"][0], ("binop", "Add", ("binop", "Add", ("attr", line, N.INDENT), sf), const(2))) for sf in start_forms)
+                from .line_rules import _re_flags
+                import re as _re_mod
+                fl = _re_flags(it[3]) if it is not None and it[0] == "call" and len(it) > 3 else 0
+                okp = it is not None and it[0] == "call" and it[1] == "re.finditer" and is_const(it[2][0]) and not (fl & ~(_re_mod.VERBOSE | _re_mod.UNICODE)) \
+                    and regexnf.same(it[2][0][1], fl, "`(@[^`]+)`") and it[2][1] == trimmed and not I.loops[lid].get("conds")
+                # the tag is group 1, by number or by its name; its start is one past the match's start (the opening backtick)
+                g1 = [const(1)]
+                if okp:
+                    try:
+                        g1 += [const(k) for k, v in _re_mod.compile(it[2][0][1], fl).groupindex.items() if v == 1]
+                    except _re_mod.error:
+                        pass
+                start_forms = [(("call", ".start", (el, const(0)), ()), 2), (("call", ".start", (el,), ()), 2)] + [(("call", ".start", (el, g), ()), 1) for g in g1]
+                okd = d is not None and set(d) == {"column", "text"} and d["text"][0] in [("call", ".group", (el, g), ()) for g in g1] and any(
+                    lin_eq(d["column"][0], ("binop", "Add", ("binop", "Add", ("attr", line, N.INDENT), sf), const(off))) for sf, off in start_forms)
                 ok = okp and okd
-                found = {"pattern": regexnf.describe(it[2][0][1]) if it and is_const(it[2][0]) else fmt(it, I), "item": fmt(segs[0][2][0][1], I)}
+                found = {"pattern": regexnf.describe(it[2][0][1], fl) if it and is_const(it[2][0]) else fmt(it, I), "item": fmt(segs[0][2][0][1], I)}
         rep.ob(rid, "tags are the backtick-quoted '@' words of the line, each with the column of its own '@' (indent + match start + 2)", ok, **kw,
                expected="for m in re.finditer('`(@[^`]+)`', line): {'column': indent + m.start() + 2, 'text': m.group(1)}", found=found)
         gs = nf.guards_in_ctx(ctx)
